@@ -12,6 +12,8 @@ func main() {
 	switch os.Args[1] {
 	case "kernel":
 		kernelMain(os.Args[2:])
+	case "wrap":
+		wrapMain(os.Args[2:])
 	default:
 		fmt.Fprintln(os.Stderr, "unknown subcommand", os.Args[1])
 		os.Exit(2)
